@@ -64,3 +64,14 @@ Theorem C08_data_message_retains_last_only : forall text flag tlvs c ev,
   c_resendMsgs c' = [text] \/ c_resendMsgs c' = c_resendMsgs c.
 Proof. exact data_message_retains_last_only. Qed.
 Print Assumptions C08_data_message_retains_last_only.
+
+(* ---- over every history ----
+   Whenever a conversation is not encrypted - before a session, after End(), after the peer's disconnect, whatever
+   happened before and whatever is sent to it - its key context holds no D-H private key, no earlier peer key, no
+   counters and no MAC keys (neither in use nor waiting to be disclosed): every session secret is gone. *)
+From OTR Require Import Proto.Lifecycle Proto.SessionSecrets.
+Theorem C08_no_session_secret_outside_a_session : forall who pol key h,
+  let c := fst (run_calls (conv_init who pol key) h) in
+  c_msgState c <> c_encrypted -> keys_gone (c_keys c).
+Proof. exact no_session_secret_outside_a_session. Qed.
+Print Assumptions C08_no_session_secret_outside_a_session.
